@@ -145,8 +145,9 @@ func (e *env) recordSweep() {
 		} else if !usable && ra.OK() && len(world.Arr(ra.Top())) > 0 {
 			b.Violation(fmt.Sprintf("getAllRecords(%s) answers although no registered unexpired name encloses it", name), nil)
 		}
-		// resolve, with and without a trailing dot
-		for _, typ := range []int{tA, tTXT, tCNAME, tAAAA} {
+		// resolve, with and without a trailing dot; SOA is a record type like the others here (seeded change C12-12: the
+		// chain not followed for SOA)
+		for _, typ := range []int{tA, tTXT, tCNAME, tAAAA, tSOA} {
 			for _, q := range []string{name, name + "."} {
 				rr := e.w.Read(e.nns, "resolve", q, int64(typ))
 				b.Read(1)
